@@ -115,6 +115,8 @@ def mask_sources(prog, fn, b):
         names.add(first.id)
     for nm in names:
         for st, x in appended(fn, b, nm):
+            if b.is_builder_append(st):
+                continue  # the loop that builds the list: already present as a comprehension
             out.append(("append", st, x))
     return out
 
@@ -144,9 +146,8 @@ def align(prog, rep, rule):
     rep.analysed(fn)
     b = builder(prog, fn, inline=False)
     ok = False
-    for st in cfg_of(fn).all_stmts():
-        if isinstance(st, ast.Assign) and isinstance(st.value, ast.ListComp):
-            t = b.term(st.value, st)
+    for st, _nm, t in b.list_values():
+        if True:
             sl = IT(("call", ("attr", SELF, "_slice"), (DATA,), ()), 0)
             if t[0] == "comp" and t[4] == sl and t[2] == ("call", ("attr", SELF, "reference"), (("sub", DATA, ("sub", sl, ("idx", t[3], "iter"))),), ()):
                 ok = ("call", G("callable"), (("attr", SELF, "reference"),), ()) in path_conditions(prog, fn, b).of(st)
@@ -226,11 +227,9 @@ def width_slicer(prog, rep):
     w = ("attr", SELF, "width")
     E = None
     seen = {True: False, False: False}
-    for st in cfg_of(fn).all_stmts():
-        if not (isinstance(st, ast.Assign) and isinstance(st.value, (ast.ListComp, ast.IfExp))):
-            continue
-        # one comprehension per orientation, chosen by if/else statements or by one conditional expression
-        for lits_, t in top_alts(b.term(st.value, st)):
+    for st, _nm, tv in b.list_values():
+        # one comprehension per orientation (or the loop that appends one mask per interval), chosen by if/else statements or by one conditional expression
+        for lits_, t in top_alts(tv):
             pm = parse_mask(t[2]) if t[0] == "comp" else None
             if pm is None:
                 continue
